@@ -149,7 +149,7 @@ def run(ctx, factor):
                 rep.disagree("T6-sequence", case, got, m)
         rep.case({"sequence_of_pool_indices": seq, "last_operation": ops[seq[-1]]["doc"]}, len({json.dumps(ops[j]["doc"].get("config")) for j in seq}) > 1,
                  tags=["len=%d" % len(seq)])
-        if rep.violations and factor > 1:
+        if rep.has_new() and factor > 1:
             return
 
 
